@@ -236,6 +236,17 @@ func e1Seeds() (box []e1Seed, file []e1Seed) {
 	for _, es := range e1EncryptedFileSeeds() {
 		file = append(file, es)
 	}
+	// S5: segment-delimiter layouts of the C12 generator (styp with two sidx per segment, one and two top-level
+	// sidx, mfra)
+	for _, l := range []*c12Layout{
+		{Shape: []int{1, 1}, Tracks: 1, Mech: "styp", SegSidx: 2},
+		{Shape: []int{1, 2}, Tracks: 1, Mech: "sidx"},
+		{Shape: []int{1, 1}, Tracks: 2, Mech: "sidx2", Emsg: 1},
+		{Shape: []int{2, 1}, Tracks: 1, Mech: "mfra", Base: 7, Cto: 2},
+	} {
+		b := c12Build(l)
+		file = append(file, e1Seed{Name: "gen/delimiters-" + l.Mech, Type: "file", Bytes: b.File})
+	}
 	e1SeedCache.box, e1SeedCache.file, e1SeedCache.done = box, file, true
 	return box, file
 }
